@@ -172,7 +172,13 @@ func (s *scanner) Next() (*hrpc.Result, error) {
 
 	select {
 	case <-s.rpc.Context().Done():
+		if s.closed && len(s.results) == 0 {
+			// The scanner has already finished: the cancellation (or an
+			// earlier error) has been reported, or everything was delivered.
+			return nil, io.EOF
+		}
 		s.Close()
+		s.results = nil
 		return nil, s.rpc.Context().Err()
 	default:
 	}
